@@ -313,8 +313,14 @@ def checked_arith(crate):
             continue
         # debug_assert in a kernel = profile-dependent behaviour
         if b.const_bool_locals():
-            out.append((b, "%s|debug-only branch" % b.key, "violation",
-                        "arithmetic kernel contains a debug_assert!/cfg!(debug_assertions) branch: behaviour depends on the profile"))
+            if _debug_region_is_assert_only(b):
+                # a debug_assert!: the only thing the debug build does in addition is to evaluate a side-effect free condition and
+                # panic when it is false - whether it can be false is a question about values
+                out.append((b, "%s|debug-only branch" % b.key, "undecided",
+                            "the kernel contains a debug_assert! (pure condition, panic only): the profiles differ only if it can fail - not decided"))
+            else:
+                out.append((b, "%s|debug-only branch" % b.key, "violation",
+                            "arithmetic kernel contains a debug_assert!/cfg!(debug_assertions) branch: behaviour depends on the profile"))
         seen = set()
         for bb, t in b.iter_asserts():
             if t["kind"] not in ("Overflow(Add)", "Overflow(Mul)", "Overflow(Shl)", "Overflow(Shr)"):
@@ -340,6 +346,46 @@ def checked_arith(crate):
                             "overflow-checked `%s` in an arithmetic kernel is not in the reasoned table: it panics with "
                             "overflow checks and wraps without (profile-dependent result)" % txt))
     return out
+
+
+def _debug_region_is_assert_only(b):
+    """every block that runs only because cfg!(debug_assertions) is true evaluates a condition without side effects (no store
+    through a projection, no assignment to a user variable, no call taking `&mut`) and otherwise only reaches a panic"""
+    cl = b.const_bool_locals()
+    found = False
+    for blk in range(len(b.blocks)):
+        t = b.blocks[blk]["term"]
+        if t["t"] != "switch" or t["d"]["k"] not in ("copy", "move") or t["d"]["p"]["pr"] or t["d"]["p"]["l"] not in cl:
+            continue
+        val = cl[t["d"]["p"]["l"]]
+        taken = [tb for v, tb in t["tg"] if int(v) == val] or [t["ow"]]
+        other = [x for x in [tb for v, tb in t["tg"]] + [t["ow"]] if x not in taken]
+        if not other:
+            continue
+        found = True
+        # what the other side reaches as well is common code, not debug-only
+        common, todo = set(), list(other)
+        while todo:
+            x = todo.pop()
+            if x in common:
+                continue
+            common.add(x)
+            todo += b.raw_succ(x)
+        seen, todo = set(), list(taken)
+        while todo:
+            x = todo.pop()
+            if x in seen or x in common:
+                continue
+            seen.add(x)
+            for st in b.blocks[x]["st"]:
+                if st["s"] == "assign" and (b.locals[st["p"]["l"]].get("user") or any(pe == "*" for pe in st["p"]["pr"])):
+                    return False        # writes a user variable or through a pointer (temporaries of the panic message are fine)
+            tt = b.blocks[x]["term"]
+            if tt["t"] == "call":
+                if any(storage.is_mut_ref_operand(b, a) for a in tt["args"]):
+                    return False
+            todo += b.raw_succ(x)
+    return found
 
 
 def op_fidelity(crate):
